@@ -27,6 +27,7 @@ const (
 	kError
 	kIface // net.Interface / *net.Interface (Go.NetInterface of the Prelude)
 	kFunc  // a function value (always monadic: its result is `R T`)
+	kRef   // *clients.client seen from outside its package: an opaque record reference (Go.ClientRef snapshot or nil)
 	kOther
 )
 
@@ -36,6 +37,12 @@ func (x *X) kindOf(t types.Type) kind {
 	}
 	if strings.TrimPrefix(t.String(), "*") == "net.Interface" {
 		return kIface
+	}
+	if t.String() == "time.Time" {
+		return kInt // nanoseconds since the Unix epoch (monotonic reading ignored; trusted)
+	}
+	if t.String() == "*"+modPath+"lib/server/ipdb/clients.client" {
+		return kRef
 	}
 	switch u := t.Underlying().(type) {
 	case *types.Signature:
@@ -120,17 +127,26 @@ func (x *X) leanType(t types.Type, result bool) string {
 		return "GoErr"
 	case kIface:
 		return "Go.NetInterface"
+	case kRef:
+		return "(Option Go.ClientRef)"
 	case kFunc:
 		sig := t.Underlying().(*types.Signature)
 		var parts []string
 		for i := 0; i < sig.Params().Len(); i++ {
+			if isContext(sig.Params().At(i).Type()) {
+				continue
+			}
 			parts = append(parts, x.leanType(sig.Params().At(i).Type(), false))
 		}
 		var rs []string
 		for i := 0; i < sig.Results().Len(); i++ {
 			rs = append(rs, x.leanType(sig.Results().At(i).Type(), true))
 		}
-		return "(" + strings.Join(append(parts, "R "+tupleType(rs)), " → ") + ")"
+		m := "R "
+		if effectfulCallback(t) { // a callback that is handed the context acts on the world (ARP probe)
+			m = "StateT σ R "
+		}
+		return "(" + strings.Join(append(parts, m+tupleType(rs)), " → ") + ")"
 	case kList:
 		return "(List " + x.leanType(t.Underlying().(*types.Slice).Elem(), false) + ")"
 	case kStruct:
@@ -144,6 +160,20 @@ func (x *X) leanType(t types.Type, result bool) string {
 	}
 	bad("type %s", t.String())
 	return ""
+}
+
+// effectfulCallback: a function type one of whose parameters is a context.Context.
+func effectfulCallback(t types.Type) bool {
+	sig, ok := t.Underlying().(*types.Signature)
+	if !ok {
+		return false
+	}
+	for i := 0; i < sig.Params().Len(); i++ {
+		if isContext(sig.Params().At(i).Type()) {
+			return true
+		}
+	}
+	return false
 }
 
 func (x *X) structName(t types.Type) string {
@@ -186,6 +216,8 @@ func (x *X) zero(t types.Type) string {
 		return "(none : GoErr)"
 	case kIface:
 		return "Go.NetInterface.zero"
+	case kRef:
+		return "(none : Option Go.ClientRef)"
 	case kList:
 		return "([] : " + x.leanType(t, false) + ")"
 	case kStruct:
